@@ -119,7 +119,7 @@ class PDCD_WS(BaseSolver):
             z_bar = self.dual_init.copy()
 
         p_objs = []
-        stop_crit = 0.
+        stop_crit = np.inf
         all_features = np.arange(n_features)
         if _verif.ON:
             _verif.emit("init", solver=self, X=X, y=y, datafit=datafit,
